@@ -178,26 +178,30 @@ def CRegs.props (c : CRegs) : StateProps :=
 
 abbrev COut := List Stmt × CRegs
 
+/-- the QA-status machine of `process_element_descriptor` (class 33 elements after 222000) -/
+def cQa (x : Nat) (c : CRegs) : CRegs :=
+  if x = 33 then (if c.qa = .waiting then { c with qa := .processing } else c)
+  else (if c.qa = .processing then { c with qa := .na } else c)
+
+/-- the recorded call that processes the value of a Table B element -/
+def cValue (e : Elem) (c : CRegs) : Stmt :=
+  match e.kind with
+  | .string => .string (.plain e) (if c.newNbytes ≠ 0 then c.newNbytes else e.nbits / 8)
+  | .codeflag => .codeflag (.plain e) e.nbits
+  | .numeric =>
+    let nbits : Int := (e.nbits : Int) + c.nbitsOffset + c.nbitsInc
+    let scale : Int := e.scale + c.scaleOffset + c.scaleInc
+    if e.id ∈ c.newRefIds then .numericNewRef (.plain e) nbits scale c.refFactor
+    else .numeric (.plain e) nbits scale (e.ref * c.refFactor)
+
 /-- `Coder.process_element_descriptor` with the recording primitives (only ever called on Table B
     elements: marker descriptors exist at run time only) -/
 def cElement (e : Elem) (c : CRegs) : COut :=
   let x := xOf e.id
   let a : List Stmt :=
     if c.assocStack ≠ [] ∧ x ≠ 31 then [.codeflag (.assoc e.id c.assocStack.sum) c.assocStack.sum] else []
-  let c1 : CRegs :=
-    if x = 33 then (if c.qa = .waiting then { c with qa := .processing } else c)
-    else (if c.qa = .processing then { c with qa := .na } else c)
-  let q : List Stmt := if x = 33 ∧ c1.qa = .processing then [.state .addBitmapLink] else []
-  let m : Stmt :=
-    match e.kind with
-    | .string => .string (.plain e) (if c.newNbytes ≠ 0 then c.newNbytes else e.nbits / 8)
-    | .codeflag => .codeflag (.plain e) e.nbits
-    | .numeric =>
-      let nbits : Int := (e.nbits : Int) + c.nbitsOffset + c.nbitsInc
-      let scale : Int := e.scale + c.scaleOffset + c.scaleInc
-      if e.id ∈ c.newRefIds then .numericNewRef (.plain e) nbits scale c.refFactor
-      else .numeric (.plain e) nbits scale (e.ref * c.refFactor)
-  (a ++ q ++ [m], c1)
+  let q : List Stmt := if x = 33 ∧ (cQa x c).qa = .processing then [.state .addBitmapLink] else []
+  (a ++ (q ++ [cValue e c]), cQa x c)
 
 /-- `TemplateCompiler.process_bitmap_definition`: the state machine of `Coder`, then the statement
     that reproduces the change of `n_031031` -/
@@ -298,37 +302,34 @@ def compile1 (chk : Nat) : Desc → CRegs → CM COut
           .ok ([.codeflag (.skipped d.id c.nbitsSkipped) c.nbitsSkipped], { c with nbitsSkipped := 0 })
         else
           let pc := cBitmapDefinition d.id c
-          match d with
-          | .elem e => .ok (pc.1 ++ (cElement e pc.2).1, (cElement e pc.2).2)
-          | .fixedRep id ms =>
-            match compileList chk ms pc.2 with
-            | .error e => .error e
-            | .ok (body, c1) =>
-              if decide (chk ≠ 0) && !(scopeOk (decide (yOf id ≠ 0)) pc.2 body c1 (compileList chk ms c1)) then .error .other
-              else .ok (pc.1 ++ [.loop (.fixed (yOf id)) body], c1)
-          | .delayedRep _ f ms =>
-            match f with
-            | .elem fe =>
-              let fo := cElement fe pc.2
-              match compileList chk ms fo.2 with
+          let r : CM COut :=
+            match d with
+            | .elem e => .ok (cElement e pc.2)
+            | .fixedRep id ms =>
+              match compileList chk ms pc.2 with
               | .error e => .error e
               | .ok (body, c1) =>
-                if decide (chk ≠ 0) && !(scopeOk (decide (chk = 2)) fo.2 body c1 (compileList chk ms c1)) then .error .other
-                else .ok (pc.1 ++ fo.1 ++ [.loop .factor body], c1)
-            | _ => .error .other
-          | .op id =>
-            match cOperator id pc.2 with
-            | .error e => .error e
-            | .ok (p, c1) =>
+                if decide (chk ≠ 0) && !(scopeOk (decide (yOf id ≠ 0)) pc.2 body c1 (compileList chk ms c1)) then .error .other
+                else .ok ([.loop (.fixed (yOf id)) body], c1)
+            | .delayedRep _ f ms =>
+              match f with
+              | .elem fe =>
+                match compileList chk ms (cElement fe pc.2).2 with
+                | .error e => .error e
+                | .ok (body, c1) =>
+                  if decide (chk ≠ 0) && !(scopeOk (decide (chk = 2)) (cElement fe pc.2).2 body c1 (compileList chk ms c1)) then .error .other
+                  else .ok ((cElement fe pc.2).1 ++ [.loop .factor body], c1)
+              | _ => .error .other
+            | .op id =>
               -- scope check only: a marker operator met while the QA status is not `na` is outside the class
               if decide (chk ≠ 0) && isMarkerOp id && decide (pc.2.qa ≠ .na) then .error .other
-              else .ok (pc.1 ++ p, c1)
-          | .seq _ ms =>
-            match compileList chk ms pc.2 with
-            | .error e => .error e
-            | .ok (p, c1) => .ok (pc.1 ++ p, c1)
-          | .undefElem _ => .error .unknownDescr
-          | .undefSeq _ => .error .unknownDescr
+              else cOperator id pc.2
+            | .seq _ ms => compileList chk ms pc.2
+            | .undefElem _ => .error .unknownDescr
+            | .undefSeq _ => .error .unknownDescr
+          match r with
+          | .error e => .error e
+          | .ok (p, c1) => .ok (pc.1 ++ p, c1)
 end
 
 /-- `TemplateCompiler.process(template, table_group)` -/
